@@ -159,7 +159,9 @@ func main() {
 	for i := 0; i < c.N(10, 80); i++ { // 10 kinds of new configuration file (stageb.go variants): each at least once
 		specs = append(specs, vkit.ChildSpec{Mode: "e2e", Tag: fmt.Sprintf("e2e%03d", i), Timeout: 6 * time.Minute, Args: map[string]string{"idx": strconv.Itoa(i)}})
 	}
-	for _, i := range []int{1000, 1010} { // take-over case with two outputs, second one refusing: in-process and process-level
+	// 1000, 1010: take-over case with two outputs, second one refusing, in-process and process-level; 1020: a reload that
+	// moves a field only the input's own addFields step writes (must be refused)
+	for _, i := range []int{1000, 1010, 1020} {
 		specs = append(specs, vkit.ChildSpec{Mode: "e2e", Tag: fmt.Sprintf("e2e%04d", i), Timeout: 6 * time.Minute, Args: map[string]string{"idx": strconv.Itoa(i)}})
 	}
 	for _, r := range c.RunChildren(specs, 8) {
